@@ -10,4 +10,6 @@ import XrlC06.Lemmas.Refr
 import XrlC06.Lemmas.Total
 import XrlC06.Lemmas.Begin
 import XrlC06.Lemmas.Fixed
+import XrlC06.Lemmas.RefrFixed
 import XrlC06.Props.C06
+import XrlC06.Props.C06r
